@@ -370,8 +370,12 @@ impl<R: Read> StreamBufferedReader<R> {
         let mut remaining = buf;
 
         while !remaining.is_empty() {
-            // Ensure we have data in buffer
-            let available = self.ensure_buffered(remaining.len())?;
+            // Serve buffered data first; refill (at most one buffer) only when empty
+            let available = if self.pos < self.end {
+                self.end - self.pos
+            } else {
+                self.fill_buffer(cmp::min(remaining.len(), self.buffer.len()))?
+            };
             if available == 0 {
                 break; // End of stream
             }
@@ -421,8 +425,12 @@ impl<R: Read> StreamBufferedReader<R> {
         let mut remaining = buf;
 
         while !remaining.is_empty() {
-            // Ensure we have data in buffer
-            let available = self.ensure_buffered(remaining.len())?;
+            // Serve buffered data first; refill (at most one buffer) only when empty
+            let available = if self.pos < self.end {
+                self.end - self.pos
+            } else {
+                self.fill_buffer(cmp::min(remaining.len(), self.buffer.len()))?
+            };
             if available == 0 {
                 break; // End of stream
             }
